@@ -17,6 +17,11 @@ import sys
 from specs.kip98_filter import deliver, READ_COMMITTED, READ_UNCOMMITTED
 
 
+from bounded import codec_common as cc      # noqa: E402
+
+cc.use_fresh_extensions()                   # the package copy with the extensions built from the tree under test
+
+
 def emit(d):
     print("BOUNDED " + json.dumps(d, default=str))
 
@@ -114,6 +119,76 @@ def run_real(batches, aborted, fetch_offset, isolation):
     return out, pr.next_fetch_offset
 
 
+PIDS = {1: 2 ** 40 + 1000, 2: 2 ** 31}      # real producer ids are 64-bit: both beyond the int32 range
+
+
+def encode(batches):
+    """the slice as real v2 bytes: data batches by the pure-Python builder (transactional flag, producer id), markers as
+    control batches with the KIP-98 marker key (control bit set, CRC re-sealed)"""
+    from aiokafka.record.default_records import _DefaultRecordBatchBuilderPy
+    from aiokafka.record.util import calc_crc32c
+    out = b""
+    for d in batches:
+        pid = PIDS[d["pid"]] if d["pid"] is not None else -1
+        b = _DefaultRecordBatchBuilderPy(magic=2, compression_type=0, is_transactional=1 if d["txn"] else 0, producer_id=pid,
+                                         producer_epoch=0 if d["pid"] is not None else -1,
+                                         base_sequence=0 if d["pid"] is not None else -1, batch_size=1 << 20)
+        if d["control"] is None:
+            for i, _ in enumerate(d["offsets"]):
+                b.append(offset=i, timestamp=1000 + i, key=b"k", value=b"v", headers=[])
+        else:
+            b.append(offset=0, timestamp=1000, key=struct.pack(">HH", 0, 0 if d["control"] == "ABORT" else 1), value=b"", headers=[])
+        raw = bytearray(b.build())
+        if d["control"] is not None:
+            (attrs,) = struct.unpack_from(">h", raw, 21)
+            struct.pack_into(">h", raw, 21, attrs | 0x20)
+            struct.pack_into(">I", raw, 17, calc_crc32c(bytes(raw[21:])))
+        struct.pack_into(">q", raw, 0, d["base"])
+        out += bytes(raw)
+    return out
+
+
+def run_bytes(impl, batches, aborted, fetch_offset, isolation):
+    from aiokafka.consumer.fetcher import PartitionRecords
+    from aiokafka.structs import TopicPartition
+    from bounded import codec_common as cc
+    mem = cc.impls()[impl]["mem"](encode(batches))
+    index = [(PIDS[p], first) for p, first in aborted]
+    pr = PartitionRecords(TopicPartition("t", 0), mem, index, fetch_offset, None, None, True, isolation)
+    out = [r.offset for r in pr]
+    return out, pr.next_fetch_offset
+
+
+def sweep_bytes(L, limit=None):
+    """the same logs as real bytes through the real decoders (compiled and pure Python) into the real filter"""
+    cases, fails = 0, []
+    for n in range(1, L + 1):
+        for seq in itertools.product(EVENTS, repeat=n):
+            built = build(seq)
+            if built is None:
+                continue
+            batches, aborted_all, visible, data = built
+            for cut in range(len(batches)):
+                sl = batches[cut:]
+                aborted = [(p, first) for p, first, marker in aborted_all if marker >= sl[0]["base"]]
+                fo = sl[0]["base"]
+                for iso in (READ_UNCOMMITTED, READ_COMMITTED):
+                    truth = sorted(o for o in (visible if iso == READ_COMMITTED else data) if o >= fo)
+                    for impl in ("c", "py"):
+                        cases += 1
+                        try:
+                            got, nfo = run_bytes(impl, sl, aborted, fo, iso)
+                        except Exception as e:
+                            got, nfo = "raised %s: %s" % (type(e).__name__, e), None
+                        if got != truth or nfo != sl[-1]["next"]:
+                            fails.append({"events": list(seq), "cut": cut, "isolation": iso, "decoder": impl,
+                                          "aborted_index": [(PIDS[p], f) for p, f in aborted], "delivered": got,
+                                          "ground_truth": truth, "position": nfo, "log_end": sl[-1]["next"]})
+                            if limit and len(fails) >= limit:
+                                return cases, fails
+    return cases, fails
+
+
 def sweep(L, limit=None):
     cases = nontrivial = 0
     fails = []
@@ -160,6 +235,23 @@ def main():
           "bound": "all event sequences of length <= %d over %s, every batch-boundary cut, fetch offset at or inside the first "
                    "batch, both isolation levels" % (L, EVENTS),
           "failures": fails, "replay": {"script": REPLAY}})
+    Lb = 4 if a.tier == "quick" else 5
+    cases, fails = sweep_bytes(Lb, limit=10)
+    emit({"name": "isolation-filter-over-real-bytes", "exhaustive": True, "cases": cases, "distinct_nontrivial": cases,
+          "bound": "all event sequences of length <= %d encoded as real v2 batches (producer ids 2^40+1000 and 2^31, control batches "
+                   "with the KIP-98 marker key), every batch-boundary cut, both isolation levels, through the compiled and the "
+                   "pure-Python decoders into the real PartitionRecords; compared with the ground truth" % Lb,
+          "failures": fails, "replay": {"script": REPLAY_BYTES}})
+
+
+REPLAY_BYTES = '''
+import sys
+sys.path.insert(0, "/verif")
+from bounded import C08
+cases, fails = C08.sweep_bytes(3, limit=1)
+VIOLATED = bool(fails)
+DETAIL = "real PartitionRecords over real v2 bytes, %d cases: %r" % (cases, fails[:1])
+'''
 
 
 REPLAY = '''
